@@ -164,6 +164,15 @@ def r4_dispatch(ck, cx):
                     sliced += 1
                     ck.ob('R4', h.qn, 'decode() receives the PDU without the function code byte', U(a) == '%s[1:]' % data,
                           detail='decode-arg %s' % U(a), loc=cx.floc(h, ev.node))
+            # the stand-in for a request that cannot be served is built from the function code that was received, whatever the reason
+            for ev in p.ev:
+                t = getattr(ev, '_sub', None)
+                for c_ in ([x for x in ast.walk(t) if isinstance(x, ast.Call)] if isinstance(t, ast.AST) and ev.kind in ('assign', 'return', 'call') else []):
+                    if callee_name(c_) == 'IllegalFunctionRequest' and c_.args:
+                        ck.ob('R4', h.qn, 'IllegalFunctionRequest is given the received function code', U(c_.args[0]) in first_byte,
+                              detail='illegal-function-code-source %s' % U(c_.args[0])[:40], loc=cx.floc(h, ev.node),
+                              message='%s._helper builds IllegalFunctionRequest(%s): the exception response then carries `%s | 0x80` instead of the function code of the '
+                                      'request it answers' % (dn, U(c_.args[0])[:60], U(c_.args[0])[:40]))
             if dn == 'ClientDecoder':
                 for ev in p.ev:
                     if ev.kind == 'assign' and isinstance(getattr(ev, '_sub', None), ast.Call) and callee_name(ev._sub) == 'ExceptionResponse':
@@ -276,6 +285,43 @@ def r13_length_alone_never_refuses(ck, cx, rule='R13'):
                       message='%s.%s refuses a PDU of %s bytes (function code included) whatever its function code: a completely filled PDU (253 bytes: FC 21 with data length 0xFB, '
                               'FC 43/14 with 246 object bytes) is legal and must decode to its message type' % (dn, mname, bad))
     ck.floor(rule, n, 6, 'paths of the decoders\' decode / _helper')
+
+
+def r14_truth_tested_messages_are_truthy(ck, cx, rule='R14'):
+    """Both decoders instantiate the looked-up class and then test the INSTANCE for truth (`if not response: raise ...`,
+    `if not request: request = IllegalFunctionRequest(...)`).  That is "was a class found" only while no message class can be falsy:
+    a class (or a base inside the package) that defines __len__ or __bool__ makes a freshly built, still empty message look like
+    "unknown function code"."""
+    ck.rule(rule, 'the decoders test the freshly instantiated message for truth, so no registered message class (nor a package base class of one) defines __len__ / __bool__')
+    n = 0
+    tested = False
+    for dn in ('ServerDecoder', 'ClientDecoder'):
+        d = cx.idx.cls('pymodbus.factory.' + dn)
+        h = cx.method(d, '_helper')
+        for p in cx.enum(h, d, max_depth=0):
+            annotate(p, heap=False)
+            for ev in p.ev:
+                t = getattr(ev, '_sub', None)
+                if ev.kind == 'cond' and isinstance(t, ast.Call) and isinstance(t.func, ast.Call) and '__lookup' in U(t.func):
+                    tested = True       # truthiness of  self.__lookup.get(code, ...)()
+    if not tested:
+        ck.ob(rule, 'pymodbus.factory', 'the decoders do not test message instances for truth (nothing to require)', True)
+        return
+    seen = set()
+    for dn in ('ServerDecoder', 'ClientDecoder'):
+        for tname in ('__function_table', '__sub_function_table'):
+            _, tab = table(cx, dn, tname)
+            for k in tab:
+                for b in cx.idx.mro(k):
+                    if not b.qn.startswith('pymodbus.') or b.qn in seen:
+                        continue
+                    seen.add(b.qn)
+                    n += 1
+                    bad = [m for m in ('__len__', '__bool__', '__nonzero__') if m in b.methods]
+                    ck.ob(rule, b.qn, 'defines neither __len__ nor __bool__', not bad, detail='message-class-can-be-falsy %s' % ','.join(bad), loc=b.loc,
+                          message='%s defines %s: a freshly built instance can be falsy, and the decoders (which test the instance, not the table entry) then treat a registered '
+                                  'function code as unknown — a well-formed PDU of that type no longer decodes to its message' % (b.qn, ', '.join(bad)))
+    ck.floor(rule, n, 40, 'message classes (with package bases) checked for truthiness overrides')
 
 
 def shared_layout_findings(ck, cx, rule, class_names, why, rules=('R2', 'R3')):
@@ -546,6 +592,7 @@ def run(ck, tier):
     ck.guard(r2_r3_layouts, ck, cx)
     ck.guard(r4_dispatch, ck, cx)
     ck.guard(r13_length_alone_never_refuses, ck, cx)
+    ck.guard(r14_truth_tested_messages_are_truthy, ck, cx)
     ck.guard(r6_constructor_keeps_zero, ck, cx)
     ck.guard(r7_register_keeps_tables, ck, cx)
     ck.guard(r9_sub_tables_distinct, ck, cx)
